@@ -73,3 +73,29 @@ PROPS["C10"] = {
                     "memory budget for decoding: 128 bytes per input byte + 1 MiB"],
     "design_ref": "DESIGN.md section 3, C10",
 }
+
+PROPS["C11"] = {
+    "engine": "c11",
+    "level": "exploration",
+    "technique": "totality / memory-budget / round-trip runtime monitors on decode-validate-metadata-apply over CRC-corrected and structure-aware mutants of compiler-emitted containers (counting allocator, 2 MiB stack, process journal)",
+    "quick": {"shards": 8, "budget_s": 20, "max_restarts": 30},
+    "thorough": {"shards": 16, "budget_s": 300, "max_restarts": 60},
+    "floor": {"quick": 3000, "thorough": 50000},
+    "require_counters": {"quick": {"decoded_ok": 3000, "validated_ok": 500, "emitted_containers_ok": 4},
+                         "thorough": {"decoded_ok": 50000, "validated_ok": 5000}},
+    "rule": "seed containers = compiler output for 4 embedded programs (tasks, FBs, structs, enums, OOP, I/O). Mutants: every 4-byte-aligned "
+            "offset x 8 hostile u32 values with the CRC recomputed (systematic for containers <= 3000 B; all seeds in thorough), truncation at "
+            "every offset with the CRC flag cleared, structure-aware (decode -> mutate BytecodeModule -> encode): type-graph cycles + constant, "
+            "dangling/extreme indices in every section, extreme jump operands, missing/duplicate sections, giant process images, unknown task "
+            "programs; random multi-patch/splice/random-body. distinct = hash of the byte string; non-trivial = the mutant got past the header/CRC "
+            "gate and decode() returned Ok (so section decoding, validate and metadata ran on it)",
+    "level_text": "Every mutant runs through the real decode -> validate -> metadata -> encode/decode round trip on a 2 MiB-stack thread under "
+                  "a counting allocator (peak <= 64*|b| + 1 MiB, single request <= 1 GiB); containers that validate are then applied to a runtime "
+                  "built from the seed program. Emitted containers must validate, re-encode bit-exactly and apply. Panics are caught, aborts and "
+                  "stack overflows are attributed through the case journal.",
+    "level_note": "apply_bytecode_bytes is not exercised for containers declaring a process image above 64 MiB per area (allocating what the "
+                  "container legitimately asks for is outside the O(|b|) clause and would exhaust the machine); counted in observed.apply_skipped_image_over_64MiB.",
+    "assumptions": ["memory budget 64 bytes per input byte + 1 MiB for decode+validate+metadata",
+                    "apply only observed on the four seed runtimes"],
+    "design_ref": "DESIGN.md section 3, C11",
+}
